@@ -18,7 +18,9 @@ type HarnessRun struct {
 	Covers    []string       // cover points that must be reached
 	MaxPaths  int            // safety cap (0 = default)
 	Budget    int64
-	Preempt   bool
+	Preempt   int
+	Budget2   int  // preemption budget (default 2)
+	Deadlock  bool // a deadlock (all threads blocked) is a violation of the harness property
 	MapOrder  bool
 	DiffRuns  int // concrete differential runs VM vs native (0 = none)
 	NoNative  bool // harness uses VM-only vocabulary (threads/virtual time): no native differential
@@ -123,7 +125,7 @@ func explore(env *vm.Env, run HarnessRun, workers int, cross string, timeout tim
 				out := wk.Run(vm.RunOpts{
 					Entry: run.PkgPath + "." + run.Entry, Prefix: prefix, Budget: run.Budget,
 					WantSample: npaths < 12 || os.Getenv("VERIF_DUMP_PATHS") != "", CrossCheck: cross != "", CollectFns: true,
-					Preempt: run.Preempt, SymMapOrder: run.MapOrder,
+					Preempt: run.Preempt, SymMapOrder: run.MapOrder, DeadlockViolation: run.Deadlock, PreemptBudget: run.Budget2,
 				})
 
 				ex.mu.Lock()
